@@ -63,6 +63,7 @@ func c04Judge(w *fw.W, c *c04Case) bool {
 				w.Count("ambiguous_skipped", 1)
 				w.Cover("ambiguous_reasons", exp.Ambiguous)
 				w.Count("ambiguous: "+exp.Ambiguous, 1)
+				unjudgedRun(w, long, c, c.Req)
 				return true
 			}
 			if !c04OrderInsensitive(c.Program) {
@@ -72,6 +73,7 @@ func c04Judge(w *fw.W, c *c04Case) bool {
 				w.Count("ambiguous_skipped", 1)
 				w.Cover("ambiguous_reasons", exp.Ambiguous+" (rule set uses order-sensitive constructs)")
 				w.Count("ambiguous: "+exp.Ambiguous+" (rule set uses order-sensitive constructs)", 1)
+				unjudgedRun(w, long, c, c.Req)
 				return true
 			}
 			// the model cannot predict the outcome (unpinned construct), but whatever the outcome is, it has to be
